@@ -1,0 +1,35 @@
+//! Verification hook (add-only, compiled only with `--cfg ivp_verif`).
+//!
+//! A thread-local event sink to which the implicit solvers report the decisions of their main loop
+//! (Newton outcome, error test outcome, singular factorisation, step-size path).  Nothing is recorded
+//! unless `start()` was called on the current thread; the solvers' behaviour is unchanged either way.
+
+use std::cell::RefCell;
+
+thread_local! {
+    static SINK: RefCell<Option<Vec<(&'static str, f64)>>> = const { RefCell::new(None) };
+}
+
+/// Start recording on this thread (discarding anything recorded before).
+pub fn start() {
+    SINK.with(|s| *s.borrow_mut() = Some(Vec::new()));
+}
+
+/// Stop recording and return the recorded events in order.
+pub fn stop() -> Vec<(&'static str, f64)> {
+    SINK.with(|s| s.borrow_mut().take().unwrap_or_default())
+}
+
+/// Number of events recorded so far (0 when not recording).
+pub fn len() -> usize {
+    SINK.with(|s| s.borrow().as_ref().map_or(0, |v| v.len()))
+}
+
+/// Record one event (no-op when not recording).
+pub fn emit(tag: &'static str, value: f64) {
+    SINK.with(|s| {
+        if let Some(v) = s.borrow_mut().as_mut() {
+            v.push((tag, value));
+        }
+    });
+}
